@@ -76,6 +76,15 @@ def global_writers():
                 for t in (n.targets if isinstance(n, ast.Assign) else [n.target]):
                     if isinstance(t, ast.Name):
                         module_names.add(t.id)
+            # names imported at module level are process-wide objects too (e.g. the alias tables of vector._methods)
+            if isinstance(n, ast.ImportFrom):
+                for a in n.names:
+                    module_names.add(a.asname or a.name)
+            if isinstance(n, ast.If):           # `if typing.TYPE_CHECKING:` / version switches
+                for m in ast.walk(n):
+                    if isinstance(m, ast.ImportFrom):
+                        for a in m.names:
+                            module_names.add(a.asname or a.name)
 
         def root(e):
             while isinstance(e, (ast.Attribute, ast.Subscript)):
